@@ -35,6 +35,7 @@ pub static DEF: PropertyDef = PropertyDef {
         "fault.crash_restore.fired_nontrivial",
         "save.callstack_depth_gt1",
         "save.choice_threads",
+        "save.nested_threads_with_choice_threads",
         "save.multi_flow",
         "probe.snapshot_restored",
     ],
@@ -131,6 +132,10 @@ pub fn save_shape(stats: &mut crate::engine::Stats, save: &str) {
             if let Some(threads) = f.get("callstack").and_then(|c| c.get("threads")).and_then(|t| t.as_array()) {
                 if threads.len() > 1 {
                     stats.inc("save.threads_gt1");
+                }
+                // threads nested (at least three live) while a choice of a thread that has finished is pending
+                if threads.len() >= 3 && f.get("choiceThreads").is_some() {
+                    stats.inc("save.nested_threads_with_choice_threads");
                 }
                 for t in threads {
                     let d = t.get("callstack").and_then(|c| c.as_array()).map(|a| a.len()).unwrap_or(0);
